@@ -125,9 +125,45 @@ def _seeded_variants(prop, repo):
     return out
 
 
+def _patched_overrides(repo, patch):
+    """{relative path: patched text} for a unified diff applied to a scratch copy of the touched files (outside /repo and /verif)."""
+    import shutil, subprocess, tempfile
+    files = sorted({l[6:].strip() for l in open(patch) if l.startswith("+++ b/")})
+    tmp = tempfile.mkdtemp(prefix="verif_ref_")
+    try:
+        for rel in files:
+            src = os.path.join(repo, rel)
+            if not os.path.exists(src):
+                return None
+            os.makedirs(os.path.dirname(os.path.join(tmp, rel)), exist_ok=True)
+            shutil.copy(src, os.path.join(tmp, rel))
+        r = subprocess.run(["patch", "-p1", "-s", "-f", "-d", tmp, "-i", patch], capture_output=True, text=True)
+        if r.returncode != 0:
+            return None
+        return {rel: open(os.path.join(tmp, rel), encoding="utf8").read() for rel in files}
+    finally:
+        shutil.rmtree(tmp, ignore_errors=True)
+
+
+def _refactor_variants(prop, repo):
+    """The behaviour-preserving corpus (sub-agent refactors confirmed by their demonstrations and the test suite): every one of
+    them must leave every property's check silent -- also the checks of the other properties."""
+    rdir = os.path.join(HERE, "refactors")
+    out = []
+    if not os.path.isdir(rdir):
+        return out
+    for rid in sorted(os.listdir(rdir)):
+        patch = os.path.join(rdir, rid, "patch.diff")
+        if not os.path.exists(patch):
+            continue
+        ov = _patched_overrides(repo, patch)
+        out.append(dict(prop=prop, id="refactor/" + rid, overrides=ov, expect="HOLDS"))
+    return out
+
+
 def run_for_property(prop, repo="/repo", seed=0, jobs=None):
     from selftest.variants import VARIANTS
-    vs = [v for v in VARIANTS if v["prop"] == prop] + _seeded_variants(prop, repo)
+    vs = [v for v in VARIANTS if v["prop"] == prop] + _seeded_variants(prop, repo) + _refactor_variants(prop, repo)
     if seed:
         import random
         random.Random(seed).shuffle(vs)
